@@ -1187,10 +1187,10 @@ func Run(tier, replay string) {
 		emit("numerals", map[string]string{"MaxBlocks": "1", "MaxInsts": "1", "MaxSrc": "3", "NameStyles": `{"numeral"}`}, "", 0)
 		emit("random", map[string]string{"Kinds": `{"func"}`, "MaxBlocks": "3", "MaxInsts": "2", "Forms": allForms, "NameStyles": bothNames}, "num=10", 5)
 	} else {
-		emit("exhaustive", map[string]string{"MaxBlocks": "2", "MaxInsts": "1", "Forms": `{"short", "long"}`}, "", 0)
+		emit("exhaustive", map[string]string{"MaxBlocks": "2", "MaxInsts": "1"}, "", 0)
 		emit("exhaustive1", map[string]string{"Kinds": `{"func"}`, "MaxBlocks": "1", "MaxInsts": "2", "Forms": allForms}, "", 0)
 		emit("numerals", map[string]string{"MaxBlocks": "1", "MaxInsts": "2", "MaxSrc": "3", "NameStyles": `{"numeral"}`}, "", 0)
-		emit("random", map[string]string{"Kinds": `{"func"}`, "MaxBlocks": "3", "MaxInsts": "2", "Forms": allForms, "NameStyles": bothNames}, "num=60", 5)
+		emit("random", map[string]string{"Kinds": `{"func"}`, "MaxBlocks": "3", "MaxInsts": "2", "Forms": allForms, "NameStyles": bothNames}, "num=40", 5)
 	}
 	// de-duplicate (simulation repeats shapes)
 	seen := map[string]bool{}
